@@ -22,6 +22,8 @@ CHECKS = {
                 note="Trusted: lxml; observation = serialisation + position maps + cached wrappers (tables), part bytes and parsed trees (documents)."),
     "C19": dict(tech=ENUM, ref="5/C19", text="Column letter/number bijection for every n up to the bound; for every seed table every cell and area in every coordinate form (tuple, list, string, lower case, negative, partial) through every coordinate-taking method against the grid model; named-range address round trip and rename for every accepted table name up to the length bound.",
                 note="Trusted: lxml; the documented coordinate conventions. 'Random large' numbers are not sampled."),
+    "C17": dict(tech=MC, ref="5/C17", text="BFS over compositions of transpose / rstrip / optimize_width / set_span / del_span / csv round trip from every run-length encoding of the seed grid plus ragged, styled, spanned and repeated-last-row seeds; the algebraic law of each operation (exact transposed matrix, involution, idempotence, values keep coordinates, span covers exactly the area, inverse pair, csv values) is checked after every step on an independent lxml reading.",
+                note="Trusted: lxml; the reading of each law stated in evidence assumptions (transpose compared after trimming trailing empties; csv export without any delimiter is outside import_from_csv's documented autodetection)."),
 }
 
 NOT_YET = {}
